@@ -10,6 +10,7 @@
   byte strings in those positions and all component trees.
 -/
 import Gedcom.Lemmas.Html
+import Gedcom.Model.HtmlSinks
 namespace Gedcom.C18
 open Gedcom Gedcom.Html
 
@@ -267,6 +268,18 @@ theorem keyedTableRow_trusted (title : Str) (visible : Bool) (v : Comp) (hv : tr
     simp only [Comp.pre, Comp.post] at hw ⊢
     simp [hw, hc1, hc2]
 
+/-! ### Which sink each page component feeds (regenerated from the source on every run) -/
+
+/-- the string parameters of html/core that the code writes raw are exactly the raw sinks of the
+    model (probed with `<"` through every public constructor) -/
+theorem raw_sinks_expected : rawCoreParams = expectedRawCoreParams := by decide
+
+set_option maxRecDepth 1000000 in
+/-- every call of a core constructor or raw write helper in html/*.go and q/html_formatter.go
+    feeds a known sink, and a raw sink only ever receives literals (constants, literal-only locals
+    and helpers, Sprintf of those) — or an expression on the allow-list, with its reason -/
+theorem raw_sinks_fed_by_literals : Generated.sinkCalls.all sinkCallOk = true := by decide
+
 /-! ### Non-vacuity -/
 
 /-- a hostile value in every data position of a small page: trusted, hence well nested -/
@@ -280,5 +293,9 @@ example :
 example : trusted (.raw b!"</td><script>") = false ∧
     wellNested (render (.tableRow (.tableCell false [] false [] (.raw b!"</td><script>")))) = false := by
   decide +kernel
+
+/-- raw-text elements: nothing inside `<title>`, `<textarea>`, `<style>`, `<script>` is a tag -/
+example : wellNested b!"<title>a </b> <x</title><textarea><p></textarea><style>a<b{}</style><script>if(a<b){}</script>" = true
+    ∧ wellNested b!"<title>never closed" = false := by decide +kernel
 
 end Gedcom.C18
